@@ -26,9 +26,10 @@ type Clause struct {
 }
 
 type LoopSpec struct {
-	N          int
-	Invariants []*Clause
-	Decreases  *Clause
+	N           int
+	Invariants  []*Clause
+	Decreases   *Clause
+	Unreachable *Clause
 }
 
 type FuncSpec struct {
@@ -37,8 +38,8 @@ type FuncSpec struct {
 	IsIface    bool
 	Assume     bool // trusted contract of an external / unverified function
 	Implements []string
-	Uses       []string          // lemmas made available to this function's obligations
-	Hints      map[int][]*Clause // proof hints asserted (proved, then assumed) after the k-th call
+	Uses       []string             // lemmas made available to this function's obligations
+	Hints      map[int][]*Clause    // proof hints asserted (proved, then assumed) after the k-th call
 	NamedHints map[string][]*Clause // hints attached to "NAME#K" (K-th call of NAME), "-NAME#K" = before; resolved per function
 	namedDone  bool
 	Trusts     map[string]string // obligation suffix -> reason: runtime checks taken on trust (listed in the evidence)
@@ -98,7 +99,7 @@ type Decl struct {
 }
 
 type Contracts struct {
-	GlobalNonNil map[string]bool // package-level pointer variables initialised once with a non-nil value
+	GlobalNonNil map[string]bool   // package-level pointer variables initialised once with a non-nil value
 	GlobalGuard  map[string]string // package-level variable -> package-level mutex that guards it
 	Decls        map[string]*Decl
 	Funcs        map[string]*FuncSpec // key: pkg + "." + Key
@@ -113,7 +114,7 @@ type Contracts struct {
 }
 
 var topKeywords = map[string]bool{"global": true, "declare": true, "type": true, "func": true, "iface": true, "define": true, "assume": true, "model": true, "axiom": true, "lemma": true}
-var subKeywords = map[string]bool{"requires": true, "ensures": true, "xensures": true, "invariant": true, "decreases": true,
+var subKeywords = map[string]bool{"requires": true, "ensures": true, "xensures": true, "invariant": true, "unreachable": true, "decreases": true,
 	"modifies": true, "let": true, "loop": true, "implements": true, "props": true, "pure": true, "nopanic": true, "inline": true,
 	"view": true, "modelfield": true, "guarded_by": true, "trusted": true, "safe": true, "opaque": true, "noverify": true, "immutable": true,
 	"trusts": true, "assumeat": true, "defines": true, "hint": true, "checks": true, "iensures": true, "lockinv": true, "assumes": true, "uses": true, "hypothesis": true, "mayblock": true, "interfered": true, "syncwrites": true, "terminates": true, "nilok": true, "noinv": true, "noxinv": true, "noframe": true, "constructor": true}
@@ -386,6 +387,12 @@ func (c *Contracts) loadFile(path string) error {
 					}
 					curLoop = &LoopSpec{N: n}
 					fs.Loops[n] = curLoop
+				case "unreachable":
+					// loop N: unreachable — under the function's precondition no path reaches this loop (proved)
+					if curLoop == nil {
+						return fmt.Errorf("%s:%d: unreachable outside loop", path, s.line)
+					}
+					curLoop.Unreachable = cl
 				case "invariant":
 					if curLoop == nil {
 						return fmt.Errorf("%s:%d: invariant outside loop", path, s.line)
